@@ -304,6 +304,21 @@ void module_close_all(void)
         }
     } while (progress);
 
+    /* Then the backends, in the same way: one that depends on other
+     * modules must still go before them.
+     */
+    do {
+        progress = 0;
+        for (node = set_first(&modules); node; node = next) {
+            next = set_next(node);
+            module = set_node_data(node);
+            if (module->rdepends.used)
+                continue;
+            set_remove(&modules, module, 0);
+            progress = 1;
+        }
+    } while (progress);
+
     /* Go through and remove any remaining modules. */
     for (node = set_first(&modules); node; node = next) {
         next = set_next(node);
